@@ -12,32 +12,63 @@ use super::ProtoReadError;
 use crate::driver::DriverError;
 use crate::error::ApplicationClose;
 use std::future::pending;
+use std::future::Future;
+use std::pin::Pin;
+use wtransport_proto::frame::Frame;
+
+type ReadingFrame =
+    Pin<Box<dyn Future<Output = (StreamSession, Result<Frame<'static>, ProtoReadError>)> + Send>>;
 
 pub struct ConnectStream {
     stream: Option<StreamSession>,
+    // Frame read in progress. It owns the stream and survives the cancellation of `run`, so
+    // that a frame received in several pieces is not torn when `run` is polled anew.
+    reading: Option<ReadingFrame>,
 }
 
 impl ConnectStream {
     pub fn empty() -> Self {
-        Self { stream: None }
+        Self {
+            stream: None,
+            reading: None,
+        }
     }
 
     pub fn is_empty(&self) -> bool {
-        self.stream.is_none()
+        self.stream.is_none() && self.reading.is_none()
     }
 
     pub fn set_stream(&mut self, stream: StreamSession) {
         self.stream = Some(stream);
     }
 
-    pub async fn run(&mut self) -> DriverError {
-        let stream = match self.stream.as_mut() {
-            Some(stream) => stream,
-            None => pending().await,
-        };
+    async fn read_frame(&mut self) -> Result<Frame<'static>, ProtoReadError> {
+        if self.reading.is_none() {
+            let Some(mut stream) = self.stream.take() else {
+                return pending().await;
+            };
 
+            self.reading = Some(Box::pin(async move {
+                let result = stream.read_frame().await;
+                (stream, result)
+            }));
+        }
+
+        let (stream, result) = self
+            .reading
+            .as_mut()
+            .expect("frame read in progress")
+            .await;
+
+        self.reading = None;
+        self.stream = Some(stream);
+
+        result
+    }
+
+    pub async fn run(&mut self) -> DriverError {
         loop {
-            return match stream.read_frame().await {
+            return match self.read_frame().await {
                 Ok(frame) => {
                     if !matches!(frame.kind(), FrameKind::Data) {
                         debug!("Skipping non-data frame of kind {:?}", frame.kind());
